@@ -134,6 +134,14 @@ def extra_cases(rs, tier):
                     c['D'] = (sym(D) if und else D).tolist(); c['Dkind'] = 'signed'
             if r == 'partial_und':
                 B = rand_graph(rs, n, float(rs.choice([.1, .3, .5])), False)
+                if rs.rand() < .5:
+                    # mask overlapping the network's own edges (B = A, or A's edges plus random cells), with all-distinct
+                    # weights so that a connection re-created in a masked cell is visible in the end state
+                    Ab = (np.array(A) != 0)
+                    B = np.maximum(B, Ab * (rs.rand(n, n) < float(rs.choice([.5, 1.0]))))
+                    B = np.maximum(B, B.T)
+                    W = np.triu(np.arange(1, n * n + 1).reshape(n, n).astype(float), 1)
+                    c['A'] = ((W + W.T) * Ab).tolist()
                 c['B'] = B.tolist(); c['itr'] = int(rs.randint(1, 8))
             cases.append(c)
         # malformed stream for the two undirected _connected routines
@@ -186,7 +194,9 @@ def evaluate(c, r):
             F.append(('oracle-disagreement', {'loops': [ci, co], 'numpy': [r['extra'].get('cost_in'), r['extra'].get('cost_out')]}))
     if rt == 'partial_und':
         B = c['B']; n = len(A)
-        bad = [(i, j) for i in range(n) for j in range(n) if R[i][j] != 0 and A[i][j] == 0 and B[i][j] != 0]
+        # a masked cell may keep its original connection or lose it, but no connection may be created there:
+        # its value is either unchanged or zero (with distinct weights a re-created connection has another weight)
+        bad = [(i, j) for i in range(n) for j in range(n) if B[i][j] != 0 and R[i][j] != 0 and R[i][j] != A[i][j]]
         if bad or r['extra'].get('new_in_mask'):
             F.append(('mask', {'cells': bad[:6]}))
     return F
